@@ -50,6 +50,23 @@ CLAIMED = {
         note="<= 4 merged dicts, <= 3 jobs, <= 3 successive runs; expression-valued context entries are outside.",
         design="3/C26",
         technique=TECH + "; context shapes as solver choice variables; concrete blocks run natively on the real code"),
+    "C27": dict(
+        text="Real Task / TaskExpression / Job objects: for every assignment of one option to the four levels (definition, "
+             "ancestor export, call time, scheduler-imposed) along job chains of depth <= 3 (presence bits = solver variables) the "
+             "effective value, the accumulated exported names and the exported values are compared with the documented "
+             "precedence; a second chain built from the same registered tasks must be unaffected; option values that contain "
+             "expressions (top level or nested) are checked to be evaluated before the job runs, in a real Scheduler.run.",
+        note="One option key; chains <= 3; expression shapes from a menu of 5.",
+        design="3/C27",
+        technique=TECH + "; level-presence bits as solver choice variables; concrete blocks run natively on the real code"),
+    "C29": dict(
+        text="get_command_eof / get_wrapped_command / prepare_command executed symbolically on command strings (all strings up "
+             "to a length over an alphabet, and all line sequences from a menu of tricky lines); a reference here-document reader "
+             "(checked against /bin/sh in every run) must return the command byte for byte; postprocess_script and script()'s "
+             "assembly of cd / stage / command / unstage are checked on solver-chosen input and output shapes.",
+        note="Strings <= 4 (quick) / prefixes up to 9 chars (thorough); <= 3-4 lines; local paths only; the script is not executed.",
+        design="3/C29",
+        technique=TECH + "; symbolic command strings partitioned by length/prefix; line and shape menus as solver choice variables"),
     "C34": dict(
         text="format_tag_value / parse_tag_value executed symbolically on symbolic strings (all strings up to a length over "
              "stated alphabets), ints, literals and depth-1 lists/dicts; round trip and type preservation asserted.",
